@@ -52,8 +52,8 @@ claim("C16",
       "Trusted: Coq kernel; Model/Dof.v tied to preprocess/structure.go AssignDof by correspondence stage C (exact equality of every number and of the count, on the implementation's bar order).",
       "machine-checked proof in Coq (refinement to an allocation-order list of unknowns) + correspondence by vm_compute",
       "DESIGN.md 4 (C16)")
-claim("C17 Operationally (Proofs/AssembleSteps.v): an interpreter of the steps the source takes, in the source's order (Gen/GenAssemble.v: per bar AddToValue for every stiffness term and an addition for every load term; then the trivial equation for empty rows; then SetZeroCol / SetIdentityRow / SetZero per supported number) ends with exactly k_final / f_final, entry for entry; the translator also checks that these functions are plain loops (no goroutine, channel or lock).",
-      "Theorems over Q about the executable assembly model: the accumulated matrix is the sum over bars and slices of the (regenerated) slice stiffness placed at the slice's equation numbers; the load vector entry is the sum of the global net loads sharing the equation; both are invariant under any permutation of the bars; the final matrix is symmetric; supported equations become identity rows/zero columns with zero right-hand side and nothing else changes; for every displacement vector, row i of (accumulated matrix) x u is the sum of the element forces placed at number i.",
+claim("C17",
+      "Theorems over Q about the executable assembly model: the accumulated matrix is the sum over bars and slices of the (regenerated) slice stiffness placed at the slice's equation numbers; the load vector entry is the sum of the global net loads sharing the equation; both are invariant under any permutation of the bars; the final matrix is symmetric; supported equations become identity rows/zero columns with zero right-hand side and nothing else changes; for every displacement vector, row i of (accumulated matrix) x u is the sum of the element forces placed at number i. Operationally (Proofs/AssembleSteps.v): an interpreter of the steps the source takes, in the source's order (Gen/GenAssemble.v: per bar AddToValue for every stiffness term and an addition for every load term; then the trivial equation for empty rows; then SetZeroCol / SetIdentityRow / SetZero per supported number) ends with exactly k_final / f_final, entry for entry; the translator also checks that these functions are plain loops (no goroutine, channel or lock).",
       "Trusted: Coq kernel; Model/Assemble.v tied to MakeSystemOfEquations by correspondence stage D (every stored entry and every load entry, incl. structures read back from .inkfempre) and stage H (computed hypotheses of the structure-level theorems on the same structures); inkmath SparseMat semantics modelled; the 1e-10 cut-off of element.go is explicit (filtered / no_tiny).",
       "machine-checked proof in Coq (setoid sums over Q) over a translated kernel + correspondence by vm_compute",
       "DESIGN.md 4 (C17)")
